@@ -58,6 +58,7 @@ pub struct StepSpec {
 }
 
 // ---- skipping a record body (stale, foreign, unknown-type or rejected records)
+#[verifier::opaque]
 pub open spec fn skip_step(n: NextAbs, p: u16, q: u8, d: Seq<u8>) -> StepSpec {
     if d.len() < p {
         StepSpec { cont: false, consumed: d.len() as int, st: skip_abs(n, (p - d.len()) as u16, q), out: seq![] }
@@ -70,6 +71,7 @@ pub open spec fn skip_step(n: NextAbs, p: u16, q: u8, d: Seq<u8>) -> StepSpec {
 
 // ---- the body of a GetValues management record: known names are collected across partial bodies,
 // exactly one GetValuesResult is owed when a non-empty body is complete
+#[verifier::opaque]
 pub open spec fn values_step(n: NextAbs, bits: u8, p: u16, q: u8, d: Seq<u8>, mc: usize) -> StepSpec {
     let chunk = d.take(min_int(d.len() as int, p as int));      // the part of the body that is available
     let bits2 = if p > 0 { vars_union(bits, decode_pairs(chunk)) } else { bits };
@@ -107,6 +109,7 @@ pub open spec fn head_res(d: Seq<u8>) -> HeadRes {
 }
 
 // ---- between requests: waiting for BeginRequest
+#[verifier::opaque]
 pub open spec fn header_step(d: Seq<u8>) -> StepSpec {
     match head_res(d) {
         HeadRes::Short => StepSpec { cont: false, consumed: 0, st: RAbs::Header, out: seq![] },
@@ -148,6 +151,7 @@ pub open spec fn header_step(d: Seq<u8>) -> StepSpec {
 pub open spec fn params_payload(req: ReqAbs, carry: Seq<u8>, t: Seq<u8>) -> (ReqAbs, Seq<u8>) {
     (ReqAbs { id: req.id, role: req.role, flags: req.flags, log: req.log + decode_pairs(carry + t) }, decode_rest(carry + t))
 }
+#[verifier::opaque]
 pub open spec fn params_step(req: ReqAbs, carry: Seq<u8>, p: u16, q: u8, d: Seq<u8>, c: int) -> StepSpec {
     if p > 0 && d.len() < p {
         let (req2, carry2) = params_payload(req, carry, d.take(c));
@@ -194,3 +198,100 @@ pub open spec fn params_step(req: ReqAbs, carry: Seq<u8>, p: u16, q: u8, d: Seq<
 
 // incomplete-pair carry: empty, or a strict prefix of one pair
 pub open spec fn carry_ok(carry: Seq<u8>) -> bool { pair_step(carry) is None }
+
+// ---- running the parser over the available bytes: steps are taken until one yields, the bytes run out,
+// or a final state is reached.  A Params record whose payload is only partly available is the one step
+// whose split is implementation-chosen; the run stops *before* it (partial = true) and the contract of
+// the caller describes that last step by its consumed prefix.
+pub open spec fn rank(a: RAbs) -> int {
+    match a {
+        RAbs::HeaderSkip { .. } | RAbs::HeaderValues { .. } | RAbs::ParamsSkip { .. } | RAbs::ParamsValues { .. } | RAbs::DoneSkip { .. } => 1,
+        _ => 0,
+    }
+}
+pub open spec fn r_step(a: RAbs, d: Seq<u8>, mc: usize) -> StepSpec {
+    match a {
+        RAbs::Header => header_step(d),
+        RAbs::HeaderSkip { p, q } => skip_step(NextAbs::Header, p, q, d),
+        RAbs::HeaderValues { bits, p, q } => values_step(NextAbs::Header, bits, p, q, d, mc),
+        RAbs::Params { req, carry, p, q } => params_step(req, carry, p, q, d, 0),
+        RAbs::ParamsSkip { req, carry, p, q } => skip_step(NextAbs::Params { req, carry }, p, q, d),
+        RAbs::ParamsValues { req, carry, bits, p, q } => values_step(NextAbs::Params { req, carry }, bits, p, q, d, mc),
+        RAbs::DoneSkip { req, p, q } => skip_step(NextAbs::Done { req }, p, q, d),
+        RAbs::Done { .. } | RAbs::Fatal { .. } => StepSpec { cont: false, consumed: 0, st: a, out: seq![] },
+    }
+}
+pub open spec fn is_partial_params(a: RAbs, d: Seq<u8>) -> bool {
+    a matches RAbs::Params { req, carry, p, q } && p > 0 && d.len() < p
+}
+pub struct RunSpec { pub st: RAbs, pub consumed: int, pub out: Seq<u8>, pub partial: bool }
+pub open spec fn r_run(a: RAbs, d: Seq<u8>, mc: usize) -> RunSpec
+    decreases d.len(), rank(a),
+{
+    if is_final(a) || is_partial_params(a, d) {
+        RunSpec { st: a, consumed: 0, out: seq![], partial: is_partial_params(a, d) }
+    } else {
+        let sp = r_step(a, d, mc);
+        // (the guard only makes termination evident: every continuing step consumes bytes or leaves a skip/values state)
+        if sp.cont && sp.consumed < d.len() && (0 < sp.consumed || (sp.consumed == 0 && rank(sp.st) < rank(a))) {
+            let r = r_run(sp.st, d.skip(sp.consumed), mc);
+            RunSpec { st: r.st, consumed: sp.consumed + r.consumed, out: sp.out + r.out, partial: r.partial }
+        } else {
+            RunSpec { st: sp.st, consumed: sp.consumed, out: sp.out, partial: false }
+        }
+    }
+}
+
+pub open spec fn abs_carry_ok(a: RAbs) -> bool {
+    match a {
+        RAbs::Params { carry, .. } => carry_ok(carry),
+        RAbs::ParamsSkip { carry, .. } => carry_ok(carry),
+        RAbs::ParamsValues { carry, .. } => carry_ok(carry),
+        _ => true,
+    }
+}
+// every continuing step makes progress, and consumes no more than is available
+pub proof fn lemma_step_progress(a: RAbs, d: Seq<u8>, mc: usize)
+    requires
+        !is_partial_params(a, d),
+    ensures
+        ({
+            let sp = r_step(a, d, mc);
+            &&& 0 <= sp.consumed <= d.len()
+            &&& (sp.cont ==> (0 < sp.consumed || (sp.consumed == 0 && rank(sp.st) < rank(a))))
+            &&& ((a is HeaderSkip || a is ParamsSkip || a is DoneSkip || a is Done || a is Fatal) ==> sp.out == Seq::<u8>::empty())
+        }),
+{
+    reveal(skip_step);
+    reveal(values_step);
+    reveal(header_step);
+    reveal(params_step);
+    match a {
+        RAbs::HeaderValues { bits, p, q } => { lemma_rest_suffix(d.take(min_int(d.len() as int, p as int))); },
+        RAbs::ParamsValues { req, carry, bits, p, q } => { lemma_rest_suffix(d.take(min_int(d.len() as int, p as int))); },
+        _ => {},
+    }
+}
+// skipping, answering a GetValues query or reading a header never touches the carried incomplete pair
+pub proof fn lemma_step_carry(a: RAbs, d: Seq<u8>, mc: usize)
+    requires
+        abs_carry_ok(a),
+        !(a is Params),
+    ensures
+        abs_carry_ok(r_step(a, d, mc).st),
+{
+    reveal(skip_step);
+    reveal(values_step);
+    reveal(header_step);
+    lemma_short_header(Seq::<u8>::empty());
+}
+// a partly available Params payload: whatever prefix is consumed, the step yields and owes nothing
+pub proof fn lemma_params_partial(req: ReqAbs, carry: Seq<u8>, p: u16, q: u8, d: Seq<u8>)
+    requires
+        p > 0 && d.len() < p,
+    ensures
+        forall|c: int| !(#[trigger] params_step(req, carry, p, q, d, c)).cont && params_step(req, carry, p, q, d, c).out == Seq::<u8>::empty()
+            && params_step(req, carry, p, q, d, c).consumed == c,
+{
+    reveal(params_step);
+}
